@@ -248,6 +248,40 @@ class Mon:
             if not ok:
                 rec.violation('constant:wrong-value', '%s denotes %r / %r' % (text, getattr(n, 'value', n), v),
                               {'kind': 'const', 'text': text})
+        # ... and in every place a word can stand, whatever the shape of the rest of the text (whole-text member
+        # paths, blanks and line breaks around the dot, after a call, as argument, key, value, operand)
+        shapes = ('$.%s', '$x.%s', '$.a.%s', '$.%s.b', '  $ .\n%s ', '$.a.b.c.%s', '($).%s', '$.items().%s', 'f(%s)', '$.f(%s)',
+                  '[%s]', '[1, %s]', '{a => %s}', '{%s => 1}', '$x + %s', '%s = $x', 'not %s', '-%s' , '$.a?.%s', 'x => %s'
+                  )
+        for text, want, world in [(t, w_, wd) for t, w_ in (('true', True), ('false', False), ('null', None))
+                                  for wd in self.worlds[:-1]]:
+            for shape in shapes:
+                form = shape % text
+                if ('=>' in form or '?.' in form) and ('keyword' in world[0] or world[0] == 'legacy'):
+                    continue
+                try:
+                    st = world[1](form)
+                except yexc.YaqlParsingException:
+                    rec.count('constants.shape_not_in_grammar')
+                    continue
+                rec.count('checked.constants')
+                rec.count('checked.constants_in_shapes')
+                rec.case(('const-shape', shape, text, world[0]), nontrivial=True)
+                found = []
+                stack = [st.expression]
+                while stack:
+                    nd = yq.unwrap(stack.pop())
+                    if type(nd) is yexpr.KeywordConstant and nd.value == text:
+                        found.append('keyword')
+                    elif type(nd) is yexpr.Constant and nd.value is want and type(nd.value) is type(want):
+                        found.append('constant')
+                    stack.extend(a for a in (getattr(nd, 'args', None) or ()) if isinstance(a, yexpr.Expression))
+                    stack.extend(a for a in (getattr(nd, 'source', None), getattr(nd, 'destination', None))
+                                 if isinstance(a, yexpr.Expression))
+                if found != ['constant']:
+                    rec.violation('constant:not-the-constant-in-shape:%s' % shape.replace('%s', '_').strip(),
+                                  '%r (%s flavour): the word %s stands for %r, not for the constant' % (form, world[0], text, found),
+                                  {'kind': 'const', 'text': form})
         for text in ('True', 'False', 'Null', 'None', 'TRUE', 'nil'):
             n, v = self.read_one(text)
             rec.count('checked.constants')
